@@ -1550,6 +1550,17 @@ impl Auto {
             r.run(&op);
         }
     }
+
+    /// `drive`, then one more sequencer block and `drive` again: a block that got lost on the
+    /// way (and would simply never be relayed) turns into a visible gap once a later block is
+    /// confirmed
+    fn drive_and_extend(&mut self, r: &mut Runner) {
+        self.drive(r);
+        r.run("bump 1");
+        self.steps = 0;
+        self.stall = 0;
+        self.drive(r);
+    }
 }
 
 /// the canonical run: `blocks` sequencer blocks relayed without any fault
@@ -1588,7 +1599,7 @@ fn after_crash(r: &mut Runner, outcome: Outcome, eager: bool) {
             auto.hold_until = o.chain_len;
         }
     }
-    auto.drive(r);
+    auto.drive_and_extend(r);
 }
 
 const OUTCOMES: [Outcome; 4] = [
@@ -1666,7 +1677,7 @@ fn torn_writes(r: &mut Runner, blocks: u64, eager: bool) {
                 continue;
             }
             r.run("torn");
-            Auto::new(eager).drive(r);
+            Auto::new(eager).drive_and_extend(r);
         }
     }
 }
@@ -1727,6 +1738,24 @@ fn double_crashes(r: &mut Runner, blocks: u64, eager: bool, stride: usize, gaps:
         }
         k += stride;
     }
+}
+
+/// the submitter is still confirming the last session's transaction while the reader runs far
+/// ahead: the channel between them (128 blocks) fills up, the next block is parked
+/// (`forward_once_free`) and the block stream pauses; after the confirmation everything must
+/// come out in order, once
+fn channel_full(r: &mut Runner) {
+    for op in [
+        "reset 0", "bump 1", "restart aged", "fs", "fs", "fs", "fetch", "fs", "fs", "bcast ok", "crash",
+        "bump 135", "restart aged", "fs", "fs", "fs",
+    ] {
+        r.run(op);
+    }
+    for _ in 0..131 {
+        r.run("fetch");
+    }
+    r.run("include t1");
+    Auto::new(true).drive_and_extend(r);
 }
 
 /// the adversarial file scenarios: left-over / garbage / truncated temp file, truncated /
@@ -1970,13 +1999,14 @@ fn driver() {
             }
             let thorough = common::is_thorough();
             file_scenarios(&mut r);
+            channel_full(&mut r);
             torn_writes(&mut r, if thorough { 4 } else { 2 }, true);
             // every crash point of a 6-block run x 4 outcomes of the in-flight BlobTx
             single_crashes(&mut r, 0, 6, true, 1);
             single_crashes(&mut r, 0, if thorough { 6 } else { 3 }, false, 1);
             single_crashes(&mut r, 17, if thorough { 12 } else { 3 }, true, if thorough { 1 } else { 2 });
             if thorough {
-                double_crashes(&mut r, 6, true, 1, &[1, 2, 3, 4, 5, 6, 8, 10, 13, 17]);
+                double_crashes(&mut r, 6, true, 1, &[1, 2, 3, 4, 6, 9, 13]);
                 double_crashes(&mut r, 4, false, 1, &[2, 4, 7, 9, 12]);
             } else {
                 double_crashes(&mut r, 3, true, 3, &[2, 5, 9]);
